@@ -1096,6 +1096,221 @@ pub fn gen_reuse(seed: u64, o: &GenOpts) -> Trace {
     t
 }
 
+/// One message with exactly one long, clean element (request target, reason phrase, header value,
+/// header name or chunk extension) whose length sits at a scanner threshold: just below to ~190
+/// bytes above a power of two or a multiple of 32 bytes. Returns the wire, the element's range
+/// and the threshold (as an offset into the element).
+fn thresh_wire(r: &mut Rng, kind: Kind, version: u8) -> (Vec<u8>, (usize, usize), usize) {
+    let t = if r.chance(1, 6) { 32 * r.range(3, 300) } else { *r.pick(&[128usize, 256, 512, 1024, 1024, 2048, 2048, 2048, 4096, 4096, 4096, 8192, 16384]) };
+    let len = (t + r.below(192)).saturating_sub(r.below(3));
+    let mut v: Vec<u8> = Vec::new();
+    if kind != Kind::Hdrs && kind != Kind::Chunk {
+        for _ in 0..*r.pick(&[0usize, 0, 0, 1, 2]) {
+            v.extend_from_slice(b"\r\n");
+        }
+    }
+    // which element is the long one: 0 start-line element, 1 header value, 2 header name
+    let which = match kind {
+        Kind::Req | Kind::Resp => *r.pick(&[0usize, 0, 0, 1, 1, 2]),
+        Kind::Hdrs => *r.pick(&[1usize, 1, 2]),
+        Kind::Chunk => 0,
+    };
+    let clean = |r: &mut Rng, n: usize, alphabet: &[u8]| -> Vec<u8> { (0..n).map(|_| *r.pick(alphabet)).collect() };
+    let mut range = (0usize, 0usize);
+    match kind {
+        Kind::Req => {
+            { let m: &[u8] = *r.pick(&[&b"GET"[..], b"POST", b"OPTIONS", b"M-SEARCH", b"X"]); v.extend_from_slice(m); }
+            v.push(b' ');
+            if which == 0 {
+                let a = v.len();
+                v.push(b'/');
+                v.extend(clean(r, len.saturating_sub(1), b"abcxyz0189/?=&.-_~"));
+                range = (a, v.len());
+            } else {
+                v.extend_from_slice(b"/p");
+            }
+            v.extend_from_slice(b" HTTP/1.");
+            v.push(b'0' + version);
+            v.extend_from_slice(b"\r\n");
+        }
+        Kind::Resp => {
+            v.extend_from_slice(b"HTTP/1.");
+            v.push(b'0' + version);
+            { let m: &[u8] = *r.pick(&[&b" 200 "[..], b" 404 ", b" 101 "]); v.extend_from_slice(m); }
+            if which == 0 {
+                let a = v.len();
+                let alpha: &[u8] = if r.chance(1, 2) { b"abcdefXYZ0189-_./" } else { b"abc def\tXYZ0189-_./" };
+                v.extend(clean(r, len, alpha));
+                let b = v.len();
+                if matches!(v[b - 1], b' ' | b'\t') {
+                    v[b - 1] = b'k';
+                }
+                range = (a, b);
+            } else {
+                v.extend_from_slice(b"OK");
+            }
+            v.extend_from_slice(b"\r\n");
+        }
+        Kind::Chunk => {
+            { let m: &[u8] = *r.pick(&[&b"1a"[..], b"0", b"fFfF"]); v.extend_from_slice(m); }
+            v.push(b';');
+            let a = v.len();
+            v.extend(clean(r, len, b"abcxyz0189=-_./\""));
+            range = (a, v.len());
+            v.extend_from_slice(b"\r\n");
+            return (v, range, t);
+        }
+        Kind::Hdrs => {}
+    }
+    // header block: the long header sits among 0..2 short ones
+    let before = r.below(3);
+    let after = r.below(2);
+    for i in 0..before {
+        v.extend_from_slice(format!("h{}: v{}\r\n", i, i).as_bytes());
+    }
+    if which == 1 {
+        { let m: &[u8] = *r.pick(&[&b"cookie: "[..], b"a:", b"x-long-value:\t "]); v.extend_from_slice(m); }
+        let a = v.len();
+        let alpha: &[u8] = if r.chance(2, 3) { b"abcdefXYZ0123456789-_./=" } else { b"abc def\tXYZ0189-_./;=" };
+        v.extend(clean(r, len, alpha));
+        let b = v.len();
+        if matches!(v[a], b' ' | b'\t') {
+            v[a] = b'k';
+        }
+        if matches!(v[b - 1], b' ' | b'\t') {
+            v[b - 1] = b'k';
+        }
+        range = (a, b);
+        v.extend_from_slice(b"\r\n");
+    } else if which == 2 {
+        let a = v.len();
+        v.extend(clean(r, len, TCHARS));
+        range = (a, v.len());
+        v.extend_from_slice(b": v\r\n");
+    }
+    for i in 0..after {
+        v.extend_from_slice(format!("t{}: w{}\r\n", i, i).as_bytes());
+    }
+    v.extend_from_slice(b"\r\n");
+    (v, range, t)
+}
+
+/// The corruption of a threshold run: one class-boundary byte within -40..+150 of the threshold
+/// offset of the long element (sometimes a second one 1..64 bytes further on).
+fn thresh_fault(r: &mut Rng, wire: &mut [u8], range: (usize, usize), t: usize) -> Option<Fault> {
+    let (a, b) = range;
+    if b <= a {
+        return None;
+    }
+    let at = (a + t + r.below(190)).saturating_sub(40).clamp(a, b - 1);
+    let byte = *r.pick(&[0x7fu8, 0x7f, 0x7f, 0x1f, 0x08, 0x00, 0x01, 0x0b, 0x80, 0xff, 0xe9, b'\t', b' ', b':', b'(', b'@', b'\r', b'\n']);
+    if wire[at] == byte {
+        return None;
+    }
+    wire[at] = byte;
+    if r.chance(1, 4) {
+        let off = *r.pick(&[1usize, 8, 16, 32, 64]);
+        if at + off < b {
+            wire[at + off] = if r.chance(1, 2) { byte } else { 0x7f };
+        }
+    }
+    Some(Fault { kind: "lane_threshold", at, arg: byte as u64 })
+}
+
+/// Threshold probing as a prefix sweep: EOF near every structural byte and near the fault, every
+/// call at a different placement, under one sampled backend/config.
+pub fn gen_thresh_sweep(seed: u64, o: &GenOpts) -> Trace {
+    let base = Rng::new(seed);
+    let (mut rw, mut rf, mut rk) = (base.split(1), base.split(2), base.split(4));
+    let kind = *rk.pick(o.kinds);
+    let mut t = Trace::empty(Scen::Sweep, kind);
+    t.seed = seed;
+    t.cfg = if rk.chance(1, 2) { 0 } else { draw_cfg(&mut rk, o) };
+    t.entry = draw_entry(&mut rk, t.cfg);
+    t.cap = *rk.pick(&[4usize, 8, 16, 16, 64]);
+    t.backend = if rk.chance(1, 2) { 0 } else { rk.range(1, 3) as u8 };
+    t.arr_guard = rk.chance(3, 4);
+    t.knob_seed = rk.next();
+    t.thresh = true;
+    let version = rw.below(2) as u8;
+    let (mut wire, range, th) = thresh_wire(&mut rw, kind, version);
+    let mut c = Conn::default();
+    if o.faults && rf.chance(3, 4) {
+        if let Some(f) = thresh_fault(&mut rf, &mut wire, range, th) {
+            c.faults.push(f);
+        }
+    }
+    let n = rw.below(12);
+    wire.extend(body_bytes(&mut rw, n));
+    c.wire = wire;
+    t.conns.push(c);
+    t
+}
+
+/// Threshold probing as a reuse history: an unrelated earlier message, then growing prefixes of a
+/// message with a long element (cut inside the element near the threshold, or between the
+/// structural bytes after it), then the message itself - at one address most of the time.
+pub fn gen_thresh_reuse(seed: u64, o: &GenOpts) -> Trace {
+    let base = Rng::new(seed);
+    let (mut rw, mut rf, mut rk) = (base.split(1), base.split(2), base.split(4));
+    let kind = if rk.chance(1, 2) { Kind::Req } else { Kind::Resp };
+    let mut t = Trace::empty(Scen::Reuse, kind);
+    t.seed = seed;
+    t.cap = *rk.pick(&[1usize, 4, 8, 16]);
+    t.backend = 0;
+    t.arr_guard = rk.chance(1, 2);
+    t.knob_seed = rk.next();
+    t.reuse = 2;
+    t.thresh = true;
+    let version = rw.below(2) as u8;
+    let (mut probe, range, th) = thresh_wire(&mut rw, kind, version);
+    if o.faults && rf.chance(1, 4) {
+        thresh_fault(&mut rf, &mut probe, range, th);
+    }
+    let same_cfg = if rk.chance(1, 2) { Some(if rk.chance(1, 2) { 0 } else { draw_cfg(&mut rk, o) }) } else { None };
+    let push = |t: &mut Trace, rk: &mut Rng, buf: Vec<u8>| {
+        let cfg = match same_cfg {
+            Some(c) => c,
+            None => draw_cfg(rk, o),
+        };
+        let cap = *rk.pick(&[1usize, 3, 8, 16]);
+        t.ops.push(Op { buf, cfg, entry: draw_entry(rk, cfg), cap });
+    };
+    if rk.chance(3, 4) {
+        // an earlier, complete message with the other version (and other field values)
+        let sw = Swarm { long: false, ..Swarm::draw(&mut rk) };
+        let mut buf = Vec::new();
+        if rk.chance(1, 2) {
+            message(&mut rw, &sw, kind, &mut buf);
+        } else if kind == Kind::Req {
+            buf.extend_from_slice(if version == 0 { &b"PUT /earlier HTTP/1.1\r\nk: v\r\n\r\n"[..] } else { &b"PUT /earlier HTTP/1.0\r\nk: v\r\n\r\n"[..] });
+        } else {
+            buf.extend_from_slice(if version == 0 { &b"HTTP/1.1 500 Earlier\r\nk: v\r\n\r\n"[..] } else { &b"HTTP/1.0 500 Earlier\r\nk: v\r\n\r\n"[..] });
+        }
+        push(&mut t, &mut rk, buf);
+    }
+    let (a, b) = range;
+    for _ in 0..rk.range(1, 3) {
+        let cut = match rk.below(4) {
+            0 => (a + th + rk.below(190)).saturating_sub(40).clamp(a, b),
+            1 => b + rk.below(4),
+            2 => b + rk.below(14),
+            _ => rk.below(probe.len() + 1),
+        }
+        .min(probe.len());
+        push(&mut t, &mut rk, probe[..cut].to_vec());
+    }
+    // growing prefixes, as the documented loop produces them
+    if rk.chance(2, 3) {
+        let k = t.ops.len();
+        let first_related = if k > 0 && !probe.starts_with(&t.ops[0].buf) { 1 } else { 0 };
+        t.ops[first_related..].sort_by_key(|o| o.buf.len());
+    }
+    push(&mut t, &mut rk, probe);
+    t.stable = rk.chance(3, 4);
+    t
+}
+
 /// Large inputs from families that could provoke re-scanning.
 pub fn gen_adversarial(seed: u64, max_len: usize) -> Trace {
     let base = Rng::new(seed);
